@@ -304,3 +304,88 @@ def known_lines(vlib, prop, driver_for):
         if o == k["implementation"]:
             out.append("%s: %s [case: %s -> %s]" % (k["id"], k["what"], k["case"][:160], o[:120]))
     return out, set(k["case"] for k in mine)
+
+
+# ---------------------------------------------------------------- shrinking of failing inputs
+
+def ddmin(items, still_fails, budget=120):
+    """delta debugging on a list: smallest sub-list found (within the budget of tests) on which still_fails holds"""
+    n = 2
+    items = list(items)
+    while len(items) >= 2 and budget > 0:
+        chunk = max(1, len(items) // n)
+        reduced = False
+        for i in range(0, len(items), chunk):
+            cand = items[:i] + items[i + chunk:]
+            budget -= 1
+            if cand and still_fails(cand):
+                items = cand; n = max(n - 1, 2); reduced = True
+                break
+            if budget <= 0:
+                break
+        if not reduced:
+            if chunk == 1:
+                break
+            n = min(len(items), n * 2)
+    return items
+
+
+def shrink_bsr(vlib, impl, model, case):
+    """shorter operation list / data on which the in-memory reader still rejects the implementation's trace"""
+    t = case.split(" ")
+    if t[0] != "bsr" or t[4] == "-":
+        return case
+    k, kind = t[1], t[2]
+
+    def fails(data, ops):
+        c = "bsr %s %s %s %s" % (k, kind, hx(data), ",".join(ops))
+        a = vlib.run_driver(impl, [c], jobs=1)[0]
+        if a.startswith(("CRASH", "SANITIZER", "TERMINATE", "HANG")):
+            return True
+        if a.startswith(("EXC", "UNSUPPORTED")):
+            return False
+        return vlib.run_driver(model, ["bsrjudge %s %s %s %s" % (k, hx(data), ",".join(ops), a)], jobs=1)[0] != "ACCEPT"
+    data, ops = unhx(t[3]), t[4].split(",")
+    try:
+        if not fails(data, ops):
+            return case
+        ops = ddmin(ops, lambda o: fails(data, o), 80)
+        while len(data) > 1 and fails(data[:len(data) // 2], ops):
+            data = data[:len(data) // 2]
+        while len(data) > 0 and fails(data[:-1], ops) and len(data) > 0:
+            data = data[:-1]
+            if len(data) < 4:
+                break
+    except Exception:
+        return case
+    return "bsr %s %s %s %s" % (k, kind, hx(data), ",".join(ops))
+
+
+def shrink_esr(vlib, impl, case, meta):
+    """fewer code units on which the implementation's answer still fails the property"""
+    t = case.split(" ")
+    if t[0] != "esr" or meta is None:
+        return case
+    e, has_bom = meta
+    data = unhx(t[5])
+    bl = len(BOM[e]) if has_bom else 0
+    if has_bom and data[:bl] != BOM[e]:
+        return case
+    n = ENC[e][0] // 8
+    body = data[bl:]
+    units = [body[i:i + n] for i in range(0, len(body), n)]
+
+    def mk(us):
+        return "esr %s %s %s %s %s" % (t[1], t[2], t[3], t[4], hx(data[:bl] + [b for u in us for b in u]))
+
+    def fails(us):
+        c = mk(us)
+        a = vlib.run_driver(impl, [c], jobs=1, timeout=60)[0]
+        return judge_esr(c, a, meta)[0] == "FAIL"
+    try:
+        if not fails(units):
+            return case
+        units = ddmin(units, fails, 100)
+    except Exception:
+        return case
+    return mk(units)
